@@ -28,6 +28,8 @@ struct World14 {
     initial: usize,
     max: usize,
     nconn: usize,
+    /// this job's handler panics when the environment ends it (None: nobody panics)
+    crash: Option<usize>,
     obs: Arc<Mutex<Obs14>>,
     shutdown_sent: bool,
 }
@@ -90,6 +92,11 @@ impl World for World14 {
         if horizon {
             return Some(("C14/horizon".into(), "execution did not finish within the step horizon".into()));
         }
+        if self.crash.is_some() {
+            // a panicking handler is outside the property's quantifier; only the bound and the no-stranding
+            // invariant are judged in these scenarios (the pool's shutdown unwraps the dead worker's join result)
+            return None;
+        }
         let mut s = o.started.clone();
         s.sort();
         let mut f = o.finished.clone();
@@ -136,10 +143,18 @@ impl World for World14 {
 }
 
 fn build14(initial: usize, max: usize, nconn: usize) -> impl Fn(&Sched) -> Scenario {
+    build14c(initial, max, nconn, None)
+}
+
+fn build14c(initial: usize, max: usize, nconn: usize, crash: Option<usize>) -> impl Fn(&Sched) -> Scenario {
     move |s: &Sched| {
         let obs = Arc::new(Mutex::new(Obs14::default()));
         let o2 = obs.clone();
         let root = s.spawn("acceptor", true, move || {
+            // (a worker killed by a panicking handler makes the pool's shutdown panic: contained here)
+            let o2b = o2.clone();
+            let _ = std::panic::catch_unwind(std::panic::AssertUnwindSafe(move || {
+            let o2 = o2b;
             let mut pool = varlink::VerifPool::new(initial, max);
             for i in 0..nconn {
                 env_wait(ARRIVE + i);
@@ -157,14 +172,18 @@ fn build14(initial: usize, max: usize, nconn: usize) -> impl Fn(&Sched) -> Scena
                         o.in_service -= 1;
                         o.finished.push(i);
                     }
+                    if crash == Some(i) && vh::vsched::current().map(|s| !s.lock().free_run).unwrap_or(false) {
+                        panic!("handler of connection {} panics", i);
+                    }
                 });
                 o2.lock().unwrap().submitted += 1;
             }
             env_wait(SHUTDOWN);
             drop(pool);
             o2.lock().unwrap().shutdown_done = true;
+            }));
         });
-        Scenario { world: Box::new(World14 { initial, max, nconn, obs, shutdown_sent: false }), roots: vec![root] }
+        Scenario { world: Box::new(World14 { initial, max, nconn, crash, obs, shutdown_sent: false }), roots: vec![root] }
     }
 }
 
@@ -174,12 +193,12 @@ fn fail_exit(f: Fail) -> ! {
 }
 
 fn c14(args: &Args) -> ! {
-    let mut rep = Report::new("C14", "all interleavings of the acceptor's enqueue/grow step with every worker's dequeue / mark-busy / run / mark-idle / terminate steps and the environment's arrive / finish / shutdown actions on the real ThreadPool (driven through VerifPool, threads parked at the cfg(varlink_rust_verif) probes): quick = deviation-bounded stateless DFS, thorough = state-pruned complete enumeration per configuration (initial, max, connections); invariants: in_service<=max always, no accepted-but-unserved connection in a quiescent state while in_service<max, shutdown terminates with every job run exactly once; non-trivial = distinct complete executions (by choice list)");
+    let mut rep = Report::new("C14", "all interleavings of the acceptor's enqueue/grow step with every worker's dequeue / mark-busy / run / mark-idle / terminate steps and the environment's arrive / finish / shutdown actions on the real ThreadPool (driven through VerifPool, threads parked at the cfg(varlink_rust_verif) probes): quick = deviation-bounded stateless DFS, thorough = state-pruned complete enumeration per configuration (initial 1..3, max 1..4 including initial > max, connections; plus configurations in which one connection's handler panics, judged for the bound and for stranding only); invariants: in_service<=max always, no accepted-but-unserved connection in a quiescent state while in_service<max, shutdown terminates with every job run exactly once; non-trivial = distinct complete executions (by choice list)");
     install_hooks();
     if let Some(case) = args.replay_case() {
         let (i, m, n) = (case["initial"].as_u64().unwrap() as usize, case["max"].as_u64().unwrap() as usize, case["conns"].as_u64().unwrap() as usize);
         let choices: Vec<usize> = case["choices"].as_array().unwrap().iter().map(|c| c.as_u64().unwrap() as usize).collect();
-        let b = build14(i, m, n);
+        let b = build14c(i, m, n % 100, if n >= 100 { Some(0) } else { None });
         let x = run_one(&b, &choices, 5000, true).unwrap_or_else(|f| fail_exit(f));
         let y = run_one(&b, &choices, 5000, true).unwrap_or_else(|f| fail_exit(f));
         if x.fingerprint() != y.fingerprint() {
@@ -198,9 +217,6 @@ fn c14(args: &Args) -> ! {
         let mut v = vec![];
         for i in 1..=3 {
             for m in 1..=4 {
-                if i > m {
-                    continue;
-                }
                 for n in [m.min(3), (m + 1).min(5)] {
                     v.push((i, m, n));
                 }
@@ -208,11 +224,14 @@ fn c14(args: &Args) -> ! {
         }
         v.push((1, 2, 4));
         v.push((1, 1, 3));
+        v.push((1, 4, 103));
+        v.push((2, 4, 103));
+        v.push((1, 2, 103));
         v.sort();
         v.dedup();
         v
     } else {
-        vec![(1, 1, 2), (1, 2, 3), (1, 4, 3), (2, 4, 3), (2, 2, 3)]
+        vec![(1, 1, 2), (1, 2, 3), (1, 4, 3), (2, 4, 3), (2, 2, 3), (3, 2, 4), (2, 1, 3), (1, 4, 103)]
     };
     let t_start = Instant::now();
     let budget = Duration::from_secs(if thorough { 1200 } else { 40 });
@@ -226,7 +245,10 @@ fn c14(args: &Args) -> ! {
     let my: Vec<(usize, usize, usize)> = configs.iter().enumerate().filter(|(ci, _)| if thorough { ci % args.nshards == args.shard } else { (args.shard / group_size) % ncfg == *ci && args.shard < group_size * ncfg }).map(|(_, c)| *c).collect();
     let nmy = my.len().max(1);
     for (ci, (i, m, n)) in my.iter().enumerate() {
-        let b = build14(*i, *m, *n);
+        // configurations with 100 + n connections: the handler of connection 0 panics
+        let crash = if *n >= 100 { Some(0usize) } else { None };
+        let n = &(*n % 100);
+        let b = build14c(*i, *m, *n, crash);
         let cfg = ExploreCfg {
             bound: if thorough { 3 } else { 2 },
             stateful: thorough,
@@ -249,7 +271,7 @@ fn c14(args: &Args) -> ! {
             if let Some((sig, what)) = &x.violation {
                 found.push((sig.clone(), what.clone(), choices, vec![]));
             }
-            if !x.panics.is_empty() && x.violation.is_none() {
+            if !x.panics.is_empty() && x.violation.is_none() && crash.is_none() {
                 found.push((format!("C14/panic/initial={},max={}", i, m), x.panics.join("; "), x.choices(), vec![]));
             }
         };
@@ -259,12 +281,12 @@ fn c14(args: &Args) -> ! {
         let mut seen_sig = std::collections::HashSet::new();
         for (sig, what, choices, _) in found {
             let first = seen_sig.insert(sig.clone());
-            let case = json!({"initial": i, "max": m, "conns": n, "choices": choices});
+            let case = json!({"initial": i, "max": m, "conns": n + if crash.is_some() { 100 } else { 0 }, "choices": choices});
             if first {
                 let x = run_one(&b, &choices, 5000, true).unwrap_or_else(|f| fail_exit(f));
                 match &x.violation {
                     Some((s2, _)) if *s2 == sig => rep.violation(&sig, &format!("{} ; schedule: {}", what, x.trace.join(" > ")), case),
-                    other => fail_exit(Fail::Divergence(format!("violation {} did not reproduce on replay: {:?}", sig, other))),
+                    other => fail_exit(Fail::Divergence(format!("violation {} ({}) with choices {:?} did not reproduce on replay: {:?}; replay trace {}", sig, what, choices, other, x.trace.join(" > ")))),
                 }
             } else {
                 rep.violation(&sig, &what, case);
@@ -318,15 +340,23 @@ fn healthy(tag: &str, variant: usize) -> ConnSpec {
             split_at(&b, first)
         }
     };
-    ConnSpec { chunks, closes: true, healthy: true, name: format!("healthy{}", variant), after_ticks: 0, close_after_ticks: 0 }
+    ConnSpec { chunks, closes: true, healthy: true, name: format!("healthy{}", variant), after_ticks: 0, close_after_ticks: 0, resets: false }
 }
 
 fn bad_peer(role: &str) -> ConnSpec {
     match role {
-        "idle" => ConnSpec { chunks: vec![], closes: false, healthy: false, name: "idle".into(), after_ticks: 0, close_after_ticks: 0 },
-        "halfopen" => ConnSpec { chunks: vec![b"{\"method\":\"org.verif.t.Ec".to_vec()], closes: true, healthy: false, name: "halfopen".into(), after_ticks: 0, close_after_ticks: 0 },
-        "malformed" => ConnSpec { chunks: vec![b"{\"method\":7}\0{\"method\":\"org.verif.t.Echo\",\"parameters\":{\"v\":\"x\"}}\0".to_vec()], closes: false, healthy: false, name: "malformed".into(), after_ticks: 0, close_after_ticks: 0 },
-        "garbage" => ConnSpec { chunks: vec![b"\xff\xfe\0".to_vec(), b"[[[[\0".to_vec()], closes: false, healthy: false, name: "garbage".into(), after_ticks: 0, close_after_ticks: 0 },
+        "idle" => ConnSpec { chunks: vec![], closes: false, healthy: false, name: "idle".into(), after_ticks: 0, close_after_ticks: 0, resets: false },
+        "halfopen" => ConnSpec { chunks: vec![b"{\"method\":\"org.verif.t.Ec".to_vec()], closes: true, healthy: false, name: "halfopen".into(), after_ticks: 0, close_after_ticks: 0, resets: false },
+        "malformed" => ConnSpec { chunks: vec![b"{\"method\":7}\0{\"method\":\"org.verif.t.Echo\",\"parameters\":{\"v\":\"x\"}}\0".to_vec()], closes: false, healthy: false, name: "malformed".into(), after_ticks: 0, close_after_ticks: 0, resets: false },
+        "rude" => {
+            // pipelines tagged requests and disappears without reading a single reply
+            let mut b = vec![];
+            for i in 0..3 {
+                b.extend(req(Kind::Echo, Flag::None, &format!("RUDE-{}", i)));
+            }
+            ConnSpec { chunks: vec![b], closes: false, healthy: false, name: "rude".into(), after_ticks: 0, close_after_ticks: 0, resets: true }
+        }
+        "garbage" => ConnSpec { chunks: vec![b"\xff\xfe\0".to_vec(), b"[[[[\0".to_vec()], closes: false, healthy: false, name: "garbage".into(), after_ticks: 0, close_after_ticks: 0, resets: false },
         _ => panic!("role"),
     }
 }
@@ -446,14 +476,14 @@ fn replay_family(args: &Args, rep: &mut Report, specs: Vec<(String, ListenSpec)>
 }
 
 fn lspec(prop: &str, mode: Mode, initial: usize, max: usize, idle: u64, flag: bool, conns: Vec<ConnSpec>) -> ListenSpec {
-    ListenSpec { initial, max, idle_timeout: idle, flag, conns, mode, extra_ticks: 1, prop: prop.into(), flag_after_ticks: Some(0) }
+    ListenSpec { initial, max, idle_timeout: idle, flag, conns, mode, extra_ticks: 1, prop: prop.into(), flag_after_ticks: Some(0), strict_upgrade: false }
 }
 
 // ---------------------------------------------------------------------------------- C13
 
 fn c13_specs(thorough: bool) -> Vec<(String, ListenSpec)> {
     let mut v = vec![];
-    let roles = ["idle", "halfopen", "malformed", "garbage"];
+    let roles = ["idle", "halfopen", "malformed", "garbage", "rude"];
     // two connections
     for va in 0..3 {
         for vb in 0..3 {
@@ -469,6 +499,12 @@ fn c13_specs(thorough: bool) -> Vec<(String, ListenSpec)> {
             v.push((format!("{}-H{}", r, va), lspec("C13", Mode::Independent, 1, 3, 0, false, vec![bad_peer(r), healthy("A", va)])));
         }
     }
+    // a peer that vanishes with replies outstanding, then a healthy one that gets the same worker
+    for va in 0..2 {
+        v.push((format!("rude-H{}", va), lspec("C13", Mode::Independent, 1, 3, 0, false, vec![bad_peer("rude"), healthy("A", va)])));
+        v.push((format!("rude-rude-H{}", va), lspec("C13", Mode::Independent, 1, 3, 0, false, vec![bad_peer("rude"), bad_peer("rude"), healthy("A", va)])));
+    }
+    v.push(("H-rude-H".into(), lspec("C13", Mode::Independent, 1, 2, 0, false, vec![healthy("A", 1), bad_peer("rude"), healthy("B", 0)])));
     // a pool that has to grow, and one that starts big
     v.push(("HH-grow".into(), lspec("C13", Mode::Independent, 1, 2, 0, false, vec![healthy("A", 1), healthy("B", 2)])));
     v.push(("HH-init2".into(), lspec("C13", Mode::Independent, 2, 4, 0, false, vec![healthy("A", 1), healthy("B", 2)])));
@@ -488,7 +524,7 @@ fn c13_specs(thorough: bool) -> Vec<(String, ListenSpec)> {
 }
 
 fn c13(args: &Args) -> ! {
-    let mut rep = Report::new("C13", "the real listen() loop + thread pool + handle() over in-memory streams under the controlled scheduler: 2..4 connections with roles {healthy (3 pipelined tagged requests in 1-2 chunks), idle, half-open, malformed, garbage}, every interleaving of listen thread, workers and environment actions (connect / deliver chunk / close) within the deviation bound (quick 2, thorough 3); oracle: each healthy connection receives byte-for-byte its solo reply stream; non-trivial = distinct complete executions");
+    let mut rep = Report::new("C13", "the real listen() loop + thread pool + handle() over in-memory streams under the controlled scheduler: 2..4 connections with roles {healthy (3 pipelined tagged requests in 1-2 chunks), idle, half-open, malformed, garbage, rude (pipelines requests and vanishes: later server writes fail)}, every interleaving of listen thread, workers and environment actions (connect / deliver chunk / close) within the deviation bound (quick 2, thorough 3); oracle: each healthy connection receives byte-for-byte its solo reply stream; non-trivial = distinct complete executions");
     install_hooks();
     let specs = c13_specs(args.thorough());
     if args.replay.is_some() {
@@ -503,11 +539,11 @@ fn c13(args: &Args) -> ! {
 
 fn c15_specs(thorough: bool) -> Vec<(String, ListenSpec)> {
     let mut v = vec![];
-    let short = |t: &str, after: usize, close_after: usize| ConnSpec { chunks: vec![req(Kind::Echo, Flag::None, t)], closes: true, healthy: true, name: "short".into(), after_ticks: after, close_after_ticks: close_after };
+    let short = |t: &str, after: usize, close_after: usize| ConnSpec { chunks: vec![req(Kind::Echo, Flag::None, t)], closes: true, healthy: true, name: "short".into(), after_ticks: after, close_after_ticks: close_after, resets: false };
     let streaming = |after: usize, close_after: usize| {
         let mut b = req(Kind::Stream2, Flag::More, "");
         b.extend(req(Kind::Echo, Flag::None, "s"));
-        ConnSpec { chunks: split_at(&b, b.len() - 10), closes: true, healthy: true, name: "streaming".into(), after_ticks: after, close_after_ticks: close_after }
+        ConnSpec { chunks: split_at(&b, b.len() - 10), closes: true, healthy: true, name: "streaming".into(), after_ticks: after, close_after_ticks: close_after, resets: false }
     };
     let pools: Vec<(usize, usize)> = if thorough { vec![(1, 1), (1, 2), (2, 4)] } else { vec![(1, 2)] };
     for idle in [0u64, 1, 2] {
@@ -597,8 +633,12 @@ fn c02l_specs(thorough: bool) -> Vec<(String, ListenSpec)> {
                     prev = *c;
                 }
                 chunks.push(s[prev..].to_vec());
-                let conn = ConnSpec { chunks, closes: true, healthy: false, name: "upgrade".into(), after_ticks: 0, close_after_ticks: 0 };
-                v.push((format!("up-{}-pre{}-cuts{:?}", pn, with_pre as u8, cs), lspec("C02", Mode::Upgrade, 1, 2, 0, false, vec![conn])));
+                let conn = ConnSpec { chunks, closes: true, healthy: false, name: "upgrade".into(), after_ticks: 0, close_after_ticks: 0, resets: false };
+                v.push((format!("up-{}-pre{}-cuts{:?}", pn, with_pre as u8, cs), lspec("C02", Mode::Upgrade, 1, 2, 0, false, vec![conn.clone()])));
+                // the same with a handler for which the end of its input is the end of the session
+                let mut sp = lspec("C02", Mode::Upgrade, 1, 2, 0, false, vec![conn]);
+                sp.strict_upgrade = true;
+                v.push((format!("upstrict-{}-pre{}-cuts{:?}", pn, with_pre as u8, cs), sp));
             }
         }
     }
@@ -606,7 +646,7 @@ fn c02l_specs(thorough: bool) -> Vec<(String, ListenSpec)> {
 }
 
 fn c02l(args: &Args) -> ! {
-    let mut rep = Report::new("C02", "socket clause: an upgrade request followed by payload bytes (none / 1 byte / text with NULs and newlines), optionally preceded by a normal request, delivered to the real listen() worker loop over an in-memory stream in every single-cut segmentation (thorough: a third of all cut pairs) with the deliveries scheduled as environment actions (deviation bound 1); oracle: the recording upgraded handler saw exactly the bytes after the upgrade request, once; non-trivial = distinct complete executions");
+    let mut rep = Report::new("C02", "socket clause: an upgrade request followed by payload bytes (none / 1 byte / text with NULs and newlines), optionally preceded by a normal request, delivered to the real listen() worker loop over an in-memory stream in every single-cut segmentation (thorough: a third of all cut pairs) with the deliveries scheduled as environment actions (deviation bound 1); oracle: the recording upgraded handler (one that keeps the session across calls, and one that ends it when its input ends) saw exactly the bytes after the upgrade request, once; non-trivial = distinct complete executions");
     install_hooks();
     let specs = c02l_specs(args.thorough());
     if args.replay.is_some() {
@@ -630,7 +670,7 @@ fn c01l_specs(thorough: bool) -> Vec<(String, ListenSpec)> {
         // every batch split: requests delivered d at a time
         for d in 1..=n {
             let chunks: Vec<Vec<u8>> = reqs.chunks(d).map(|c| seq_bytes(c)).collect();
-            let conn = ConnSpec { chunks, closes: true, healthy: true, name: format!("{:?}", s), after_ticks: 0, close_after_ticks: 0 };
+            let conn = ConnSpec { chunks, closes: true, healthy: true, name: format!("{:?}", s), after_ticks: 0, close_after_ticks: 0, resets: false };
             v.push((format!("seq{:?}-d{}", s, d), lspec("C01", Mode::Independent, 1, 1, 0, false, vec![conn])));
         }
     }
@@ -638,7 +678,7 @@ fn c01l_specs(thorough: bool) -> Vec<(String, ListenSpec)> {
 }
 
 fn c01l(args: &Args) -> ! {
-    let mut rep = Report::new("C01", "through the real listen() worker loop over an in-memory stream: every request sequence of length<=2 (quick: 14 flag-less letters; thorough: all 56 letters) as one connection whose requests arrive in every batch split, deliveries scheduled as environment actions (deviation bound 1); oracle: the connection receives byte-for-byte the reply stream of the in-memory handler (itself checked against the reference model by the seqx part); non-trivial = distinct complete executions");
+    let mut rep = Report::new("C01", "through the real listen() worker loop over an in-memory stream: every request sequence of length<=2 (quick: 15 flag-less letters; thorough: all 60 letters) as one connection whose requests arrive in every batch split, deliveries scheduled as environment actions (deviation bound 1); oracle: the connection receives byte-for-byte the reply stream of the in-memory handler (itself checked against the reference model by the seqx part); non-trivial = distinct complete executions");
     install_hooks();
     if args.replay.is_some() {
         replay_family(args, &mut rep, c01l_specs(true), 2000);
@@ -662,7 +702,7 @@ fn c06l_specs(_thorough: bool) -> Vec<(String, ListenSpec)> {
         ("nul-storm", vec![b"\0\0\0\0".to_vec()]),
     ];
     for (n, chunks) in bad {
-        let a = ConnSpec { chunks, closes: n == "truncated-close", healthy: false, name: n.into(), after_ticks: 0, close_after_ticks: 0 };
+        let a = ConnSpec { chunks, closes: n == "truncated-close", healthy: false, name: n.into(), after_ticks: 0, close_after_ticks: 0, resets: false };
         for first_bad in [true, false] {
             let conns = if first_bad { vec![a.clone(), healthy("B", 1)] } else { vec![healthy("B", 1), a.clone()] };
             // a third connection arrives afterwards: the pool must still serve it
@@ -702,7 +742,7 @@ fn c06w_specs(thorough: bool) -> Vec<(String, ListenSpec)> {
         pos += step;
     }
     for (n, m) in mutants {
-        let a = ConnSpec { chunks: vec![m], closes: false, healthy: false, name: n.clone(), after_ticks: 0, close_after_ticks: 0 };
+        let a = ConnSpec { chunks: vec![m], closes: false, healthy: false, name: n.clone(), after_ticks: 0, close_after_ticks: 0, resets: false };
         v.push((format!("wide-{}", n), lspec("C06", Mode::Independent, 1, 3, 0, false, vec![a, healthy("B", 0)])));
     }
     v
@@ -854,13 +894,14 @@ fn conformance(args: &Args) -> ! {
     }
     if prop == "C15" {
         // real time: only lower bounds
-        for (name, idle, with_conn) in [("idle1-none", 1u64, false), ("idle1-conn-at-0.5s", 1, true)] {
+        for (name, idle, with_conn, with_flag) in [("idle1-none", 1u64, false, false), ("idle1-conn-at-0.5s", 1, true, false), ("idle1-flag-never-set", 1, false, true), ("idle1-flag-never-set-conn-at-0.5s", 1, true, true)] {
             let a = format!("unix:{}/t{}", dir.path().display(), name);
             let (svc, _log) = vts::ts::new_ts();
             let a2 = a.clone();
             let t0 = Instant::now();
             let h = std::thread::spawn(move || {
-                let r = varlink::listen(svc, &a2, &varlink::ListenConfig { idle_timeout: idle, ..Default::default() });
+                let stop = if with_flag { Some(std::sync::Arc::new(std::sync::atomic::AtomicBool::new(false))) } else { None };
+                let r = varlink::listen(svc, &a2, &varlink::ListenConfig { idle_timeout: idle, stop_listening: stop, ..Default::default() });
                 (r.map_err(|e| format!("{:?}", e.kind())), Instant::now())
             });
             let mut last_conn = t0;
